@@ -3,6 +3,42 @@ CFG = {
     "lean_theorems": "LeptosModel.Theorems.C16",
     "lean_exe": "lm_c16",
     "theorems": [
+        "Leptos.Store.C16_notify_iff_related",
+        "Leptos.Store.C16_notify_closed_form",
+        "Leptos.Store.C16_root_first",
+        "Leptos.Store.C16_segment_collision_witness",
+        "Leptos.Store.C16_keys_stable_full_false",
+        "Leptos.Store.C16_keys_stable_of_wf",
+        "Leptos.Store.C16_keys_stable_partial",
+        "Leptos.Store.C16_keys_boundary",
+        "Leptos.Store.C16_wake_order_partial",
+        "Leptos.Store.C16_wake_order_full_false",
+        "Leptos.Store.C16_write_wakes_iff_related",
+        "Leptos.Store.C16_run_subscribes",
+        "Leptos.Store.C16_sees_written_value",
+        "Leptos.Store.C16_segment_collision_machine_witness",
+        "Leptos.Store.C16_index_write_wakes_cousin_witness",
+        "Leptos.Store.C16_keyed_field_misses_root_witness",
+        "Leptos.Store.C16_at_keyed_misses_parent_witness",
+        "Leptos.Store.C16_at_index_misses_parent_witness",
+        "Leptos.Store.C16_patch_keyed_by_index_witness",
+        "Leptos.Store.C16_stale_keys_panic_witness",
+        "Leptos.Store.C16_absent_key_path_collapse_witness",
+        "Leptos.Store.C16_descendant_wake_order_witness",
+        "Leptos.Store.mem_notifySet",
+        "Leptos.Store.mem_trackSet",
+        "Leptos.Store.updateEntries_wf",
+        "Leptos.Store.stable_of_wf",
+        "Leptos.Store.reach_wf",
+        "Leptos.Store.wf_new_of_length_le_one",
+        "Leptos.Store.get_set_append",
+        "Leptos.Store.get_set_same",
+        "Leptos.Store.get_set_prefix",
+        "Leptos.Store.get_set_unrelated",
+        "Leptos.Store.walk_fldChain",
+        "Leptos.Store.runEff_fld",
+        "Leptos.Store.notifyAll_noImm",
+        "Leptos.Store.writeVia_fld",
     ],
     "harness_pkg": "hx-c16",
     "harness_bin": "c16",
